@@ -21,9 +21,9 @@ def tiers(mod, extra_quick=(), extra_thorough=()):
 PROPS = {
     "C22": {
         "filters": tiers("c22"),
-        "harness_timeout": {"quick": 900, "thorough": 3000},
+        "harness_timeout": {"quick": 1800, "thorough": 3600},
         "bounds": {
-            "quick": "get_max_fold_count_limit / get_min_fold_count_limit on a fold with one count filter (=, !=, <, <=, >, >=) against a variable holding any i64 or any u64, and every count value (u64); one_of with lists of 1..2 integers; four two-filter combinations on one variable; collect_fold_elements on an empty fold with symbolic limits",
+            "quick": "get_max_fold_count_limit / get_min_fold_count_limit on a fold with one count filter (=, !=, <, <=, >, >=) against a variable holding any i64 or any u64, and every count value (u64); one_of with lists of 1..2 integers; seven two-filter combinations on one variable; collect_fold_elements on an empty fold with symbolic limits",
             "thorough": "as quick plus all 36 ordered pairs of operators on one variable (signed and unsigned argument), one_of with 0 and 3 elements",
         },
         "outside": "everything around the limit arithmetic: the eligibility test that decides when truncation at the min limit is allowed (inline in compute_fold; the nested-fold defect of DESIGN 6 lives there), collect_fold_elements on non-empty folds (> 10 min with two DataContexts), count filters against tags, two filters against two different variables (a two-entry argument map exhausts memory: 35 GB after 4 min)",
@@ -34,7 +34,7 @@ PROPS = {
     },
     "C06": {
         "filters": tiers("c06", extra_thorough=["c06::fv::"]),
-        "harness_timeout": {"quick": 900, "thorough": 3000},
+        "harness_timeout": {"quick": 1800, "thorough": 3600},
         "bounds": {
             "quick": "CandidateValue<V>/Range<V> monomorphised at V={Null,I(i64),U(u64)}: all 64-bit endpoints/elements/probes and null_included symbolic; Multiple of 0..=2 elements; every ordered pair of {Impossible, Single, All, Multiple(0|1|2), Range(start kind x end kind)} except that Range x Range runs a path-covering 26 of the 81 bound-kind shapes and Range x Multiple(1|2) one shape; normalize and exclude_single_value on all 15 shapes; unwind 3..12",
             "thorough": "as quick plus all 81 Range x Range bound-kind shapes, all Range x Multiple shapes, and Multiple of 3 elements against everything",
@@ -49,7 +49,7 @@ PROPS = {
         "filters": tiers("c07"),
         "bounds": {
             "quick": "all 64-bit integer / finite float / boolean payloads; strings of 0..=2 ASCII bytes; lists of 0..=2 scalars; every operator except regex; unwind 2..5 with unwinding assertions",
-            "thorough": "as quick plus strings of 3 bytes and lists of 3 elements",
+            "thorough": "as quick plus strings of 3 bytes (a few shapes of 4), lists of 3 elements (membership also in 4-element lists), membership of a list in a list of lists",
         },
         "outside": "regex / not_regex (regex_automata cannot be compiled by kani-compiler 0.68); non-ASCII or longer strings; longer lists; nested lists (a single == on [[i64]] vs [[u64]] takes 253 s, filtering::equals > 15 min); ordering of lists that contain null elements (not documented)",
         "assumptions": COMMON + VALS + [
@@ -60,14 +60,14 @@ PROPS = {
         "filters": tiers("c08"),
         "bounds": {
             "quick": "every triple over {Null, Int64, Uint64, Float64, Boolean} (125 shape triples, all payloads) plus string/enum (<= 2 bytes) and list (<= 2 integers) triples",
-            "thorough": "as quick plus every heap kind (String/Enum <= 2 bytes, lists of 1..2 integers) in each position against every scalar pair, strings/enums of 3 bytes, lists of 3",
+            "thorough": "as quick plus every heap kind (String/Enum <= 2 bytes, lists of 1..2 integers) in each position against every scalar pair, strings/enums of 3 bytes (two triples of 4-byte strings), lists of 3",
         },
         "outside": "nested lists (measured: 253 s for one == on depth-2 lists, triples do not finish); strings > 3 bytes, non-ASCII; lists > 3",
         "assumptions": COMMON + VALS,
     },
     "C09": {
         "filters": {"quick": ["c09::l3::", "c09::quick::"], "thorough": ["c09::l3::", "c09::quick::", "c09::thorough::"]},
-        "harness_timeout": {"quick": 900, "thorough": 3000},
+        "harness_timeout": {"quick": 1800, "thorough": 3600},
         "bounds": {
             "quick": "L1 (frontend type inference + operand check, real code) for property types Int, [Int], String with symbolic nullability x one operator per dispatch family, and 8 tag-argument shapes; L2 (operator kernels never panic) for every pair of Int- and String-class operand shapes with nulls anywhere, lists <= 2, strings <= 2 bytes; L3 usize_from_field_value on all i64/u64/null",
             "thorough": "L1 for bases Int, String, Float, Boolean, custom scalar x depth 0..=2 x all 16 binary operators and 480 tag-argument shapes; L2 for all four scalar classes, lists <= 3",
@@ -106,7 +106,7 @@ PROPS = {
     },
     "C17": {
         "filters": tiers("c17"),
-        "harness_timeout": {"quick": 900, "thorough": 3000},
+        "harness_timeout": {"quick": 1800, "thorough": 3600},
         "bounds": {
             "quick": "pairs of types with list depth 0..=1 (all 4 depth combinations), same and different base names, symbolic nullability at every level: intersect, is_scalar_only_subtype, equal_ignoring_nullability each against the level-wise oracle; constructor/accessor round trip; with_nullability; law forms (greatest, partial order) at depth 0; upcast of 5 value shapes; interned fast paths for Int and String",
             "thorough": "as quick plus all 16 depth combinations 0..=3, law forms to depth 2, Float/Boolean fast paths, 10 more upcast shapes",
